@@ -228,6 +228,7 @@ class Evaluator:
         self.stores: List[tuple] = []  # (node, list name, key, degree) of every element store, in evaluation order
         self.loop_ctx: List[dict] = []  # innermost last: {"idx": name, "const": int | None, "pre": {list name: ListV}}
         self.track_sign = False  # C04: sign(x) carries the symbol S (S*S == 1), abs(x) == x * S
+        self.svd_args: List[tuple] = []  # (call node, degree of the matrix handed to an SVD primitive)
 
     # -- expressions -----------------------------------------------------------------
     def ev(self, e, env):
@@ -762,6 +763,7 @@ class Evaluator:
         if name == "qr" and args:
             return ("tuple", [Deg({}), Deg(degree_of(args[0]))])
         if name in self.svd_prims and args:
+            self.svd_args.append((c, degree_of(args[0])))
             # U and V are orthonormal (scale-free); the singular values carry the degree
             return ("tuple", [Deg({}), Deg(degree_of(args[0])), Deg({})])
         if name in self.solver_prims and len(args) < 2 and ct.kind == "repo" and len(ct.funcs) == 1 and len(ct.funcs[0].pos_params) >= 2:
@@ -848,6 +850,7 @@ class Evaluator:
                         env[nm_] = env2[p_]
                 for node_, lname_, key_, d_ in sub.stores:
                     self.stores.append((node_, back.get(lname_, lname_), key_, d_))
+                self.svd_args.extend(sub.svd_args)
                 funs = [v for _, v, _ in sub.raw_returns if isinstance(v, tuple) and v[0] == "func"]
                 if funs and len(funs) == len(sub.raw_returns) and all(v[1] is funs[0][1] for v in funs):
                     return funs[0]  # a selector that returns one known function on every path taken
